@@ -250,6 +250,11 @@ impl IpTransport {
         self.config.into()
     }
 
+    #[cfg(iroh_verif)]
+    pub(super) fn verif_config(&self) -> Config {
+        self.config
+    }
+
     pub(super) fn create_network_change_sender(&self) -> IpNetworkChangeSender {
         IpNetworkChangeSender {
             socket: self.socket.clone(),
@@ -325,6 +330,10 @@ impl IpSender {
         transmit: &Transmit<'_>,
     ) -> Poll<io::Result<()>> {
         let total_bytes = transmit.contents.len() as u64;
+        #[cfg(iroh_verif)]
+        iroh_base::verif::event("ip_sender.poll_send", || {
+            format!("{:?} dst={dst} src={src:?}", self.config)
+        });
         let res = Pin::new(&mut self.sender).poll_send(
             &noq_udp::Transmit {
                 destination: Self::canonical_addr(dst),
